@@ -82,6 +82,7 @@ EVENTS["dl_seg_t0_0_last"] = bytes([0x00 | (7 << 1) | 1]) + bytes(7)
 EVENTS["blk_ul_init"] = bytes([0xA4]) + mux(0x2002) + bytes([127, 0, 0, 0])
 EVENTS["blk_ul_start"] = bytes([0xA3]) + bytes(7)
 EVENTS["blk_dl_init"] = bytes([0xC6]) + mux(0x2007) + struct.pack("<L", 9)
+EVENTS["blk_dl_init_other"] = bytes([0xC6]) + mux(0x2002) + struct.pack("<L", 9)      # another object than a running download's
 EVENTS["abort"] = bytes([0x80]) + mux(0x2000) + struct.pack("<L", 0x08000000)
 EVENTS["ccs7"] = bytes([0xE0]) + bytes(7)
 EVENTS["short1_ul"] = bytes([0x40])
@@ -157,6 +158,15 @@ def run_main(tier, seed, jobs, st):
 class Sim(ServerSim):
     def __init__(self):
         super().__init__(ENTRIES)
+
+    def canon(self):
+        # the verdict of the next step depends on the reference's view as well (which transfer it believes to be running):
+        # two histories that leave the real server in the same state but the reference in different ones are different
+        # states of the product
+        r = self.ref.st
+        rk = None if r is None else (r["kind"], r.get("key") or r.get("mux"), bool(r.get("zombie")), r.get("t"),
+                                     bytes(r.get("buf") or b""), r.get("pos"))
+        return super().canon() + (rk,)
 
 
 def apply(sim, evname):
